@@ -61,6 +61,8 @@ type Tracker struct {
 	FailAt                map[int]bool
 	calls                 int
 	failRel               map[int]func()
+	reads                 int            // WithBytes / WithBytesFunc calls so far
+	failOpen, failRelease map[int]func() // by absolute read index
 	fps                   map[string]bool
 	fpScanned, srcScanned int
 	// Inner, when set, delegates storage to a real factory (real wipe/alloc behaviour).
@@ -125,8 +127,50 @@ func (t *Tracker) FailRel(rel int, onFire func()) {
 	t.failRel[t.calls+rel] = onFire
 }
 
-// ClearFail removes all planned relative allocation failures.
-func (t *Tracker) ClearFail() { t.mu.Lock(); t.failRel = nil; t.mu.Unlock() }
+// ClearFail removes all planned relative failures.
+func (t *Tracker) ClearFail() {
+	t.mu.Lock()
+	t.failRel, t.failOpen, t.failRelease = nil, nil, nil
+	t.mu.Unlock()
+}
+
+// ErrProtect is returned by injected failures to make a secret readable / unreadable again.
+var ErrProtect = errors.New("verif: injected failure changing the protection of secret memory")
+
+// Reads returns the number of WithBytes / WithBytesFunc calls made so far on any secret.
+func (t *Tracker) Reads() int { t.mu.Lock(); defer t.mu.Unlock(); return t.reads }
+
+// FailOpenRel makes the rel-th read from now on fail BEFORE its action runs (the pages could not
+// be made readable), as the real implementations do: an error, no callback.
+func (t *Tracker) FailOpenRel(rel int, onFire func()) {
+	t.mu.Lock()
+	defer t.mu.Unlock()
+	if t.failOpen == nil {
+		t.failOpen = map[int]func(){}
+	}
+	t.failOpen[t.reads+rel] = onFire
+}
+
+// FailReleaseRel makes the rel-th read from now on fail AFTER its action ran (the pages could not
+// be made inaccessible again): like the real implementations, WithBytesFunc then returns the
+// action's result TOGETHER with an error.
+func (t *Tracker) FailReleaseRel(rel int, onFire func()) {
+	t.mu.Lock()
+	defer t.mu.Unlock()
+	if t.failRelease == nil {
+		t.failRelease = map[int]func(){}
+	}
+	t.failRelease[t.reads+rel] = onFire
+}
+
+// nextRead numbers a read and returns the planned failures for it.
+func (t *Tracker) nextRead() (open, release func()) {
+	t.mu.Lock()
+	defer t.mu.Unlock()
+	k := t.reads
+	t.reads++
+	return t.failOpen[k], t.failRelease[k]
+}
 
 // New implements SecretFactory: copies b, wipes b.
 func (t *Tracker) New(b []byte) (securememory.Secret, error) {
@@ -205,25 +249,35 @@ func (s *trackedSecret) release() {
 }
 
 func (s *trackedSecret) WithBytes(action func([]byte) error) error {
-	if err := s.access(); err != nil {
-		return err
-	}
-	defer s.release()
-	if s.inner != nil {
-		return s.inner.WithBytes(action)
-	}
-	return action(s.bytes)
+	_, err := s.WithBytesFunc(func(b []byte) ([]byte, error) { return nil, action(b) })
+	return err
 }
 
-func (s *trackedSecret) WithBytesFunc(action func([]byte) ([]byte, error)) ([]byte, error) {
+func (s *trackedSecret) WithBytesFunc(action func([]byte) ([]byte, error)) (ret []byte, err error) {
+	failOpen, failRelease := s.t.nextRead()
 	if err := s.access(); err != nil {
 		return nil, err
 	}
 	defer s.release()
-	if s.inner != nil {
-		return s.inner.WithBytesFunc(action)
+	if failOpen != nil {
+		failOpen()
+		return nil, fmt.Errorf("unable to mark memory as read-only: %w", ErrProtect)
 	}
-	return action(s.bytes)
+	if s.inner != nil {
+		ret, err = s.inner.WithBytesFunc(action)
+	} else {
+		ret, err = action(s.bytes)
+	}
+	if failRelease != nil {
+		failRelease()
+		// mirrors protectedmemory / memguard: the result is returned together with the error
+		if err == nil {
+			err = fmt.Errorf("unable to mark memory as no-access: %w", ErrProtect)
+		} else {
+			err = fmt.Errorf("%w: unable to mark memory as no-access", err)
+		}
+	}
+	return ret, err
 }
 
 func (s *trackedSecret) IsClosed() bool {
